@@ -127,6 +127,13 @@ func runOp3(c *hlib.Ctx, st *state3, m *model3d.Mesh, forced int) result3 {
 		if ids != nil {
 			d.FilterFunc = func(p model3d.Coord3D) bool { return !keep[p] }
 		}
+		for k := range valences3(m) {
+			if k > 7 {
+				// SplitAttempts >= 2 tries every chord recursively: finite but exponential in the loop
+				// length (82 s on a 184-face mesh with a valence-12 vertex) - not a termination defect
+				d.SplitAttempts = 0
+			}
+		}
 		simple := ids == nil && c.Rng.Intn(4) == 0
 		// parameters are recorded for the replay only (the model's answer does not depend on them)
 		r.params = []string{fmt.Sprintf("plane=%g,boundary=%g,noedge=%v,corners=%v,splits=%d,aspect=%g,simple=%v",
@@ -459,4 +466,28 @@ func components3(soup [][3]int) int {
 		}
 	}
 	return n
+}
+
+// folded3: some edge whose two faces fold back onto each other (opposite normals), or a face of
+// zero area: the surface is not embedded, points created on distinct faces/edges may coincide.
+func folded3(m *model3d.Mesh) bool {
+	bad := false
+	m.Iterate(func(t *model3d.Triangle) {
+		if bad {
+			return
+		}
+		if !(t.Area() > 0) {
+			bad = true
+			return
+		}
+		n := t.Normal()
+		for _, s := range t.Segments() {
+			for _, t2 := range m.Find(s[0], s[1]) {
+				if t2 != t && n.Dot(t2.Normal()) < -1+1e-9 {
+					bad = true
+				}
+			}
+		}
+	})
+	return bad
 }
